@@ -79,7 +79,7 @@ InvPriceBatch == c.kind = "price" =>
     MonBWellFormed(e) /\ MonBFresh(e) /\ MonBSpread(e) /\ (ZeroDev(c.p, c.ref, c.k) \/ MonBInBand(e))
 InvAdjust == (c.kind = "price" /\ c.k # 0) =>
   LET e == AdjustEv IN
-    MonAInward(e) /\ MonANoneKeeps(e) /\ ConformsAdjust(e) /\ (ZeroDev(e.q, e.ref, e.k) \/ MonAAccepted(e))
+    MonAInward(e) /\ MonABand(e) /\ MonANoneKeeps(e) /\ ConformsAdjust(e) /\ (ZeroDev(e.q, e.ref, e.k) \/ MonAAccepted(e))
 (* with equal multipliers and a reference on the price grid, a clamped price is never inverted *)
 InvAdjustOrdered == (c.kind = "price" /\ c.k # 0 /\ c.p.minm = c.p.maxm /\ c.ref.some /\ c.ref.m >= c.p.minm
                      /\ PMin(c.p) <= PMax(c.p)) =>
